@@ -21,6 +21,7 @@ import (
 	"os"
 	"path/filepath"
 	"strings"
+	"syscall"
 	"testing"
 )
 
@@ -50,6 +51,8 @@ type vaCmd struct {
 	FailMode    string `json:"fail_mode,omitempty"`     // "" the source keeps failing; "once-eof" it fails once, then reports end of input; "once-continue" it fails once, then delivers the rest
 	FailWriteAt int    `json:"fail_write_at,omitempty"` // k-th Write call fails (1-based)
 	ShortWrite  int    `json:"short_write,omitempty"`   // failing write accepts this many bytes first
+	WriteErrno  string `json:"write_errno,omitempty"`   // the failing write returns this errno (EAGAIN EINTR ENOSPC EPIPE EIO) instead of the marker error
+	WriteOnce   bool   `json:"write_once,omitempty"`    // only that one Write call fails, later calls succeed (a transient condition)
 	// atlas
 	BaseURL string   `json:"base_url,omitempty"`
 	Pub     string   `json:"pub,omitempty"`
@@ -119,13 +122,36 @@ type vaRecWriter struct {
 	short    int
 	after    int // writes issued after the first failure
 	failed   bool
+	errno    string
+	once     bool
+}
+
+func (w *vaRecWriter) fault() error {
+	switch w.errno {
+	case "EAGAIN":
+		return &os.PathError{Op: "write", Path: "/dev/stdout", Err: syscall.EAGAIN}
+	case "EINTR":
+		return &os.PathError{Op: "write", Path: "/dev/stdout", Err: syscall.EINTR}
+	case "ENOSPC":
+		return &os.PathError{Op: "write", Path: "out.log", Err: syscall.ENOSPC}
+	case "EPIPE":
+		return &os.PathError{Op: "write", Path: "|1", Err: syscall.EPIPE}
+	case "EIO":
+		return &os.PathError{Op: "write", Path: "out.log", Err: syscall.EIO}
+	}
+	return errVAInjected
 }
 
 func (w *vaRecWriter) Write(p []byte) (int, error) {
 	w.calls = append(w.calls, append([]byte(nil), p...))
 	if w.failed {
 		w.after++
-		return 0, errVAInjected
+		if !w.once {
+			return 0, w.fault()
+		}
+		// a transient condition: this call is taken (the sink now holds whatever the program sends after the failure)
+		w.accepted.Write(p)
+		return len(p), nil
 	}
 	if w.failAt > 0 && len(w.calls) >= w.failAt {
 		w.failed = true
@@ -134,7 +160,7 @@ func (w *vaRecWriter) Write(p []byte) (int, error) {
 			n = len(p)
 		}
 		w.accepted.Write(p[:n])
-		return n, errVAInjected
+		return n, w.fault()
 	}
 	w.accepted.Write(p)
 	return len(p), nil
@@ -274,7 +300,7 @@ func vaRun(c *vaCmd) (res map[string]any) {
 	case "stream":
 		data, _ := base64.StdEncoding.DecodeString(c.InputB64)
 		r := &vaFailReader{data: data, chunk: c.Chunk, failAt: c.FailReadAt, failOff: c.FailReadOff, mode: c.FailMode}
-		w := &vaRecWriter{failAt: c.FailWriteAt, short: c.ShortWrite}
+		w := &vaRecWriter{failAt: c.FailWriteAt, short: c.ShortWrite, errno: c.WriteErrno, once: c.WriteOnce}
 		var err error
 		if c.Gzip {
 			err = ProcessMongoLogFile(&vaMockFR{r: r, ext: ".gz"}, "mock.log.gz", w, nil)
